@@ -229,6 +229,7 @@ def main(argv=None):
     args = ap.parse_args(argv)
     prop = args.prop.upper()
     tier = args.tier
+    os.environ["VERIF_TIER"] = tier  # property modules may size their generators by tier (core.tier())
     try:
         seed = int(os.environ.get("VERIF_SEED", "1") or "1")
     except ValueError:
